@@ -16,8 +16,8 @@ INVARIANT LoopAgrees
 INVARIANT ImportantSafe
 CHECK_DEADLOCK FALSE
 """
-NV = 13           # values in MC_Rewrites!Vals; symbol k = 4*(value-1) + 1 + important + 2*exception
-EMPTY = 13
+NV = 14           # values in MC_Rewrites!Vals; symbol k = 4*(value-1) + 1 + important + 2*exception
+EMPTY = 14
 
 
 def sym(v, important, exc):
@@ -49,7 +49,7 @@ def replay_cases(ctx, recs, tag):
 def run(ctx):
     ctx.rule = ("spec -> code: every sequence of distinct symbols up to MaxLen over seeded 8-symbol core alphabets (a rewrite, its "
                 "exception, an important variant, an empty-valued exception, a structured MX/SRV/HTTPS value with its exception) "
-                "and up to length 2/3 over the full 50-symbol alphabet (13 values x important x exception), replayed through "
+                "and up to length 2/3 over the full 54-symbol alphabet (14 values x important x exception), replayed through "
                 "DNSResult.DNSRewrites directly and through the DNS engine; code -> spec: seeded random lists up to length 20 "
                 "validated by Trace_Rewrites. distinct_nontrivial = cases where at least one rule is filtered out")
     ctx.assumptions = ["'empty-valued' is defined on the parsed value ($dnsrewrite= and NOERROR parse alike)",
